@@ -151,10 +151,14 @@ NewVolume ==
         n \in (IF Mode = "exhaustive" THEN {1} ELSE {1, 2}),
         vt \in (IF Mode = "exhaustive" THEN {1} ELSE {1, 3}),
         blanks \in ({0} \cup (IF S >= 48 THEN {(S \div 24) - 1} ELSE {})),
-        keepfree \in BOOLEAN :          \* the sector right behind a reserved run stays free (never allocated later)
-       /\ (keepfree => style # "chain")
+        keepfree \in BOOLEAN,          \* the sector right behind a reserved run stays free (never allocated later)
+        late \in (IF Mode = "exhaustive" THEN {FALSE} ELSE BOOLEAN) :    \* the directory lies at the top of the free space, BEHIND the data of its files
+       /\ (keepfree => style # "chain") /\ (late => style = "chain")
        /\ n = 1 => blanks = 0            \* blank entries push real entries across the sector boundary of a 2-sector table
-       /\ LET cands == IF style = "chain" THEN ChainCandidates(CurPart, n)
+       /\ LET free == FreeOf(CurPart)
+              cands == IF late THEN (IF Cardinality(free) >= n + 2 + MaxChain * goal.files
+                                     THEN {[k \in 1..n |-> Kth(free, Cardinality(free) - n + k)]} ELSE {})
+                       ELSE IF style = "chain" THEN ChainCandidates(CurPart, n)
                        ELSE IF RunStart(CurPart) + n <= NSect THEN {[k \in 1..n |-> RunStart(CurPart) + k - 1]} ELSE {}
           IN \E d \in cands :
                img' = [img EXCEPT !.parts[CurP].vols = Append(@,
